@@ -237,13 +237,16 @@ def nameOf (base : Nat) (a : Nat) : Nat := match s.kind a with
   | .input n => if (promoted s r parts).contains a then base + a else n
   | _ => base + a
 
+/-- the name under which part `k` reads array `a` -/
+def readName (base k a : Nat) : Nat := match s.kind a with
+  | .input n => if !(partOutputArrays s r parts k).contains a && (promoted s r parts).contains a
+      then base + a else n
+  | _ => base + a
+
 /-- the names part `k` reads -/
 def partInputs (base k : Nat) : List Nat :=
-  (((partOutputArrays s r parts k).flatMap (reads s r parts k s.fuel)).map fun a =>
-    match s.kind a with
-    | .input n => if !(partOutputArrays s r parts k).contains a && (promoted s r parts).contains a
-        then base + a else n
-    | _ => base + a).eraseDups
+  (((partOutputArrays s r parts k).flatMap (reads s r parts k s.fuel)).map
+    (readName s r parts base k)).eraseDups
 
 def partOutputs (base k : Nat) : List Nat :=
   ((s.outputs.filter fun o => placeStored s r parts o.2 == k).map (·.1)
